@@ -5,9 +5,18 @@ Models: `Model/Pack.lean` (pack/unpack, little-endian items, nbytes) and `Model/
 (element-type tables, array / torch / packed / proto-backed / external / lazy representations,
 destination files, serialize / deserialize).  Helper developments: `Lemmas/Pack.lean`,
 `Lemmas/TensorRepr.lean`, `Lemmas/TensorReprAgree.lean`.  Everything is core Lean (no Mathlib).
+
+Deepening round (sections at the end of this file): `Model/ExtLife.lean` (the lifecycle of one
+`ExternalTensor` object over call histories and a changing file system; `C04_ext_*`, helper
+`Lemmas/ExtLife.lean`), `Model/Strided.lean` (strided array / torch memory reduced to logical order
+by the model; `C04_strided_*`, helper `Lemmas/Strided.lean`) and `Model/StrTensor.lean` (STRING
+tensors; `C04_string_*`).  Still differential only: `ir.tensor` on Python numbers / nested lists.
 -/
 import IrVerif.Lemmas.Pack
 import IrVerif.Lemmas.TensorReprAgree
+import IrVerif.Lemmas.ExtLife
+import IrVerif.Lemmas.Strided
+import IrVerif.Model.StrTensor
 
 namespace IrVerif.Pack
 
@@ -310,3 +319,378 @@ example : (Dest.write { img := [1, 2, 3], pos := 5 } [9, 8]).img = [1, 2, 3, 0, 
 example : (Dest.write { img := [1, 2, 3], pos := 1, append := true } [9]).img = [1, 2, 3, 9] := by decide
 
 end IrVerif.TensorRepr
+
+/-! ## Deepening round: call histories of one `ExternalTensor` object (`Model/ExtLife.lean`)
+
+The object keeps a mapping and an array between calls.  The theorems below quantify over ALL call
+histories (reads through `numpy()`, `__array__`, `tobytes()`, `tofile()` with or without keeping
+the returned array alive, `release()`, `invalidate()`, `base_dir` re-assignment, and the environment
+creating, atomically replacing or removing the data file in any directory) from the constructor.
+`fresh e en file` is what a newly constructed tensor answers through entry point `en` for the file
+content `file`; `C04_field_agree` says what that is for a legal file. -/
+
+namespace IrVerif.ExtLife
+open IrVerif.Pack IrVerif.TensorRepr
+
+/-- **C04_ext_history_read** (unconditional): after ANY history, a read either raises `ValueError`
+    (the object was invalidated) or answers exactly what a FRESH object answers -- `tofile()` on
+    the file the path currently names, the mapping-based entry points (`numpy()`, `__array__`,
+    `tobytes()`) on the file they have seen: the mapped file while a complete load is held,
+    otherwise the file the path currently names.  In particular `numpy()`, `__array__` and
+    `tobytes()` always answer from the SAME file content, a failed load (file missing, empty or
+    too short) leaves nothing behind that a later read would answer from, and no history makes a
+    read return anything but the bytes `[offset, offset+length)` of a file that was named by
+    `(base_dir, location)`, decoded per dtype. -/
+theorem C04_ext_history_read (e : Ext) (fs : FS) (d : Nat) (ops : List Op) (en : Entry) (hold : Bool) :
+    (step e (run e (init fs d) ops).1 (.read en hold)).2 =
+      if (run e (init fs d) ops).1.st.valid = true then
+        fresh e en (if en = .tofile then cur (run e (init fs d) ops).1 else seen (run e (init fs d) ops).1)
+      else .raised "ValueError" := by
+  have hi := inv_run (e := e) ops (inv_init e fs d)
+  by_cases hv : (run e (init fs d) ops).1.st.valid = true
+  · rw [if_pos hv]; exact read_obs hi hv en hold
+  · rw [if_neg hv]; exact read_obs_invalid e _ (by simpa using hv) en hold
+
+/-- **C04_ext_history_agree**: in a coherent state (no complete load is held, or the mapped file is
+    still the file the path names) every entry point of a valid object answers what a fresh object
+    answers for the file CURRENTLY named by `(base_dir, location)` -- the same file through every
+    entry point.  `coherent` is decidable; the check evaluates it after every call of every
+    generated history and publishes the share. -/
+theorem C04_ext_history_agree (e : Ext) (fs : FS) (d : Nat) (ops : List Op)
+    (hc : coherent (run e (init fs d) ops).1 = true)
+    (hv : (run e (init fs d) ops).1.st.valid = true) (en : Entry) (hold : Bool) :
+    (step e (run e (init fs d) ops).1 (.read en hold)).2 = fresh e en (cur (run e (init fs d) ops).1) := by
+  rw [C04_ext_history_read, if_pos hv, seen_of_coherent hc]
+  split <;> rfl
+
+/-- **C04_ext_quiet_coherent**: coherence can only be lost by the environment: a history in which
+    the named file is never replaced or removed WHILE the object holds a complete load of it
+    (`quiet`, decidable on the history) ends in a coherent state -- whatever reads, failed loads,
+    releases (also failing ones), invalidations, `base_dir` re-assignments and file replacements at
+    other times or in other directories it contains. -/
+theorem C04_ext_quiet_coherent (e : Ext) (fs : FS) (d : Nat) (ops : List Op)
+    (hq : quiet e (init fs d) ops = true) : coherent (run e (init fs d) ops).1 = true :=
+  coherent_run ops (inv_init e fs d) rfl hq
+
+/-- **C04_ext_invalidated**: once `invalidate()` was called, every read raises `ValueError`, after
+    any further history. -/
+theorem C04_ext_invalidated (e : Ext) (fs : FS) (d : Nat) (before after : List Op) (en : Entry)
+    (hold : Bool) :
+    (step e (run e (init fs d) (before ++ Op.invalidate :: after)).1 (.read en hold)).2
+      = .raised "ValueError" := by
+  apply read_obs_invalid
+  rw [run_append]
+  simp only [run]
+  exact run_valid_false after rfl
+
+/-- **C04_ext_release_fresh**: after `release()` -- also one that raised `BufferError` because the
+    caller still holds an exported array -- every read of a valid object answers what a fresh
+    object answers for the file currently named (unconditionally: `release()` is what restores
+    coherence). -/
+theorem C04_ext_release_fresh (e : Ext) (fs : FS) (d : Nat) (ops : List Op) (en : Entry) (hold : Bool)
+    (hv : (run e (init fs d) ops).1.st.valid = true) :
+    (step e (step e (run e (init fs d) ops).1 .release).1 (.read en hold)).2
+      = fresh e en (cur (run e (init fs d) ops).1) := by
+  have hi := inv_run (e := e) ops (inv_init e fs d)
+  have R := release_arr (run e (init fs d) ops).1.st
+  have hi' := inv_step hi .release
+  have hv' : (step e (run e (init fs d) ops).1 .release).1.st.valid = true := by
+    simp only [step]; rw [R.2.1]; exact hv
+  have hcur : cur (step e (run e (init fs d) ops).1 .release).1 = cur (run e (init fs d) ops).1 := by
+    simp only [step, cur]; rw [R.2.2]
+  rw [read_obs hi' hv' en hold, seen_of_arr_none (by simp only [step]; exact R.1), hcur]
+  split <;> rfl
+
+/-- **C04_ext_release_neutral**: in a coherent state `release()` never changes what the next read
+    returns, through any entry point, valid or not. -/
+theorem C04_ext_release_neutral (e : Ext) (fs : FS) (d : Nat) (ops : List Op) (en : Entry) (hold : Bool)
+    (hc : coherent (run e (init fs d) ops).1 = true) :
+    (step e (step e (run e (init fs d) ops).1 .release).1 (.read en hold)).2
+      = (step e (run e (init fs d) ops).1 (.read en hold)).2 := by
+  by_cases hv : (run e (init fs d) ops).1.st.valid = true
+  · rw [C04_ext_release_fresh e fs d ops en hold hv, C04_ext_history_agree e fs d ops hc hv]
+  · have hv' : (run e (init fs d) ops).1.st.valid = false := by simpa using hv
+    rw [read_obs_invalid e _ hv', read_obs_invalid e _ (step_valid_false hv' .release)]
+
+/-- **C04_ext_basedir**: assigning a DIFFERENT `base_dir` either succeeds, and then every read
+    answers what a fresh object answers for the file in the NEW directory, or raises `BufferError`
+    (an exported array is still held), and then `base_dir` is unchanged and every read answers what
+    a fresh object answers for the file currently in the OLD directory; never anything read under
+    the other directory. -/
+theorem C04_ext_basedir (e : Ext) (fs : FS) (d : Nat) (ops : List Op) (d' : Nat)
+    (hne : d' ≠ (run e (init fs d) ops).1.st.baseDir)
+    (hv : (run e (init fs d) ops).1.st.valid = true) :
+    (((step e (run e (init fs d) ops).1 (.setBaseDir d')).2 = .done ∧
+        (step e (run e (init fs d) ops).1 (.setBaseDir d')).1.st.baseDir = d') ∨
+      ((step e (run e (init fs d) ops).1 (.setBaseDir d')).2 = .raised "BufferError" ∧
+        (step e (run e (init fs d) ops).1 (.setBaseDir d')).1.st.baseDir
+          = (run e (init fs d) ops).1.st.baseDir)) ∧
+    ∀ (en : Entry) (hold : Bool),
+      (step e (step e (run e (init fs d) ops).1 (.setBaseDir d')).1 (.read en hold)).2
+        = fresh e en (fsGet (run e (init fs d) ops).1.fs
+            (step e (run e (init fs d) ops).1 (.setBaseDir d')).1.st.baseDir) := by
+  have hi := inv_run (e := e) ops (inv_init e fs d)
+  generalize (run e (init fs d) ops).1 = w at *
+  have hi' := inv_step hi (.setBaseDir d')
+  have harr : (step e w (.setBaseDir d')).1.st.arr = none := by
+    simp only [step, doSetBaseDir, doRelease, ne_eq, hne, not_false_eq_true, ↓reduceIte]
+    repeat' split
+    all_goals rfl
+  have hval : (step e w (.setBaseDir d')).1.st.valid = true := by
+    simp only [step, doSetBaseDir, doRelease, ne_eq, hne, not_false_eq_true, ↓reduceIte]
+    repeat' split
+    all_goals exact hv
+  constructor
+  · simp only [step, doSetBaseDir, doRelease, ne_eq, hne, not_false_eq_true, ↓reduceIte]
+    repeat' split
+    all_goals simp_all
+  · intro en hold
+    rw [read_obs hi' hval en hold, seen_of_arr_none harr]
+    have : cur (step e w (.setBaseDir d')).1 = fsGet w.fs (step e w (.setBaseDir d')).1.st.baseDir := rfl
+    rw [this]
+    split <;> rfl
+
+/-- **C04_ext_history_legal**: the agreement theorem for histories.  When the file currently named
+    holds the canonical bytes of a logical tensor at the offset (between arbitrary other content)
+    and the state is coherent, then after ANY history the valid object returns exactly the logical
+    elements from `numpy()` and `__array__`, exactly the canonical little-endian packed bytes from
+    `tobytes()`, and delivers exactly those bytes through `tofile()` without raising. -/
+theorem C04_ext_history_legal {dt : DType} {dims : List Nat} {bw : Nat} {xs : List Nat}
+    (wf : WF dt dims bw xs) (e : Ext) (pre post : List Nat) (hd : e.dtype = dt) (hdims : e.dims = dims)
+    (hoff : e.offset.getD 0 = pre.length)
+    (hlen : ∀ l, e.length = some l → l = 0 ∨ l = nbytes (prod dims) bw)
+    (fs : FS) (d : Nat) (ops : List Op)
+    (hc : coherent (run e (init fs d) ops).1 = true)
+    (hv : (run e (init fs d) ops).1.st.valid = true)
+    (hfile : cur (run e (init fs d) ops).1 = some (pre ++ packLE bw xs ++ post)) (hold : Bool) :
+    (∃ u, (step e (run e (init fs d) ops).1 (.read .numpy hold)).2 = .units u ∧ obsBits bw u = xs) ∧
+    (∃ u, (step e (run e (init fs d) ops).1 (.read .asarray hold)).2 = .units u ∧ obsBits bw u = xs) ∧
+    (step e (run e (init fs d) ops).1 (.read .tobytes hold)).2 = .bytes (packLE bw xs) ∧
+    (step e (run e (init fs d) ops).1 (.read .tofile hold)).2 = .wrote (packLE bw xs) false := by
+  have A := C04_field_agree wf (Legal.external e pre post hd hdims hoff hlen)
+  obtain ⟨u, hu, hx⟩ := A.numpy
+  have hn : e.numpy (some (pre ++ packLE bw xs ++ post)) = .ok u := hu
+  have hb : e.tobytes (some (pre ++ packLE bw xs ++ post)) = .ok (packLE bw xs) := A.tobytes
+  have hf : e.tofile (some (pre ++ packLE bw xs ++ post)) = .ok (packLE bw xs, false) := A.tofile
+  refine ⟨⟨u, ?_, hx⟩, ⟨u, ?_, hx⟩, ?_, ?_⟩
+  · rw [C04_ext_history_agree e fs d ops hc hv, hfile]; simp only [fresh, hn]
+  · rw [C04_ext_history_agree e fs d ops hc hv, hfile]; simp only [fresh, hn]
+  · rw [C04_ext_history_agree e fs d ops hc hv, hfile]; simp only [fresh, hb]
+  · rw [C04_ext_history_agree e fs d ops hc hv, hfile]; simp only [fresh, hf]
+
+/-- the tensor of the witnesses: four UINT4 elements (two bytes) at offset 1 of a four-byte file -/
+def wExt : Ext := { dtype := .uint4, dims := [4], offset := some 1, length := some 2 }
+
+/-- **C04_ext_stale_witness** (observation D380, why `coherent` is a hypothesis): the code serves
+    `tobytes()` / `numpy()` from the mapping made by the first read, `tofile()` from the path.  After
+    the data file is atomically replaced under a live mapping the entry points of ONE object
+    disagree (old bytes vs new bytes), the state is not coherent, and `release()` changes what the
+    next `tobytes()` returns. -/
+theorem C04_ext_stale_witness :
+    coherent (run wExt (init [(0, [1, 0x21, 0x43, 9])] 0)
+        [Op.read .tobytes false, Op.put 0 [9, 0x65, 0x87, 9]]).1 = false ∧
+    quiet wExt (init [(0, [1, 0x21, 0x43, 9])] 0) [Op.read .tobytes false, Op.put 0 [9, 0x65, 0x87, 9]] = false ∧
+    (run wExt (init [(0, [1, 0x21, 0x43, 9])] 0)
+        [.read .tobytes false, .put 0 [9, 0x65, 0x87, 9], .read .tobytes false, .read .numpy false,
+         .read .tofile false, .release, .read .tobytes false]).2
+      = [.bytes [0x21, 0x43], .done, .bytes [0x21, 0x43], .units [1, 2, 3, 4], .wrote [0x65, 0x87] false,
+         .done, .bytes [0x65, 0x87]] := by
+  decide
+
+/-! non-vacuity and concreteness of the history theorems -/
+
+-- a history with a failed load (file too short), a replacement, a failing release and a base_dir change
+-- (UINT8 would pin the mapping; the 4-bit array is an unpacked copy and does not, so release succeeds)
+example : (run wExt (init [(0, [1, 2])] 0)
+    [.read .tobytes false, .put 0 [1, 0x21, 0x43, 9], .read .tobytes false, .read .numpy true, .release,
+     .read .tofile false, .setBaseDir 1, .read .numpy false, .invalidate, .read .tofile false]).2
+    = [.raised "ValueError", .done, .bytes [0x21, 0x43], .units [1, 2, 3, 4], .done,
+       .wrote [0x21, 0x43] false, .done, .raised "FileNotFoundError", .done, .raised "ValueError"] := by decide
+-- a held array of a whole-byte type pins the mapping: release() and the base_dir setter raise, base_dir stays
+example : (run { dtype := .uint8, dims := [0], offset := none, length := none } (init [] 0)
+    [.read .numpy true, .release, .read .tobytes false, .read .tofile false]).2
+    = [.units [], .done, .bytes [], .raised "FileNotFoundError"] := by decide
+example : doRelease { baseDir := 0, raw := some [1], arr := some [1], pinned := true }
+    = ({ baseDir := 0, raw := some [1], arr := none, pinned := true }, .raised "BufferError") := by decide
+example : doSetBaseDir { baseDir := 0, raw := some [1], arr := some [1], pinned := true } 5
+    = ({ baseDir := 0, raw := some [1], arr := none, pinned := true }, .raised "BufferError") := by decide
+-- that history is quiet, so it ends coherent
+example : quiet wExt (init [(0, [1, 2])] 0)
+    [.read .tobytes false, .put 0 [1, 0x21, 0x43, 9], .read .tobytes false, .read .numpy true, .release] = true := by
+  decide
+-- after the failed load the mapping exists without an array (D143): the state is coherent and the next
+-- tobytes loads again instead of slicing the short mapping
+example : (run wExt (init [(0, [1, 2])] 0) [.read .tobytes false]).1.st
+    = { baseDir := 0, raw := some [1, 2], arr := none } := by decide
+-- the hypotheses of C04_ext_history_legal are satisfiable: 2-bit data behind one unrelated byte
+example : WF .uint2 [5] 2 [0, 1, 2, 3, 1] := ⟨by decide, by decide, by decide⟩
+example : cur (run { dtype := .uint2, dims := [5], offset := some 1, length := none }
+      (init [(3, [7] ++ packLE 2 [0, 1, 2, 3, 1] ++ [])] 3) [.read .numpy false, .release]).1
+    = some ([7] ++ packLE 2 [0, 1, 2, 3, 1] ++ []) := by decide
+
+end IrVerif.ExtLife
+
+/-! ## Deepening round: strided array memory (`Model/Strided.lean`)
+
+An array-backed tensor keeps the array it was given -- any strides (negative, zero, overlapping),
+any storage offset, zero-size dims, either byte order behind an array-compatible object -- and a
+torch adapter keeps the torch tensor.  `gather` is the C-order copy walk that `ravel`, `astype`,
+`tobytes`, `tofile` and `contiguous` perform; `indices` / `addr` / `unravel` say, independently of
+that walk, which logical element is where. -/
+
+namespace IrVerif.Strided
+open IrVerif.Pack IrVerif.TensorRepr
+
+/-- **C04_strided_rowmajor**: the copy walk over ANY strided array (any rank, any strides including
+    negative and zero, any offset, zero-size dims) enumerates exactly the logical elements in
+    row-major order of their multi-indices, each read at `offset + Σ index_k * stride_k`; there are
+    `prod shape` of them. -/
+theorem C04_strided_rowmajor (a : Arr) (h : a.strides.length = a.shape.length) :
+    a.items = (indices a.shape).map a.itemAt ∧ a.units = (indices a.shape).map a.valueAt ∧
+    a.items.length = prod a.shape ∧ a.units.length = prod a.shape := by
+  refine ⟨items_eq a h, units_eq a h, ?_, ?_⟩
+  · rw [items_eq a h, List.length_map, indices_length]
+  · rw [units_eq a h, List.length_map, indices_length]
+
+/-- **C04_strided_index**: the `k`-th item of the walk is the logical element whose multi-index is
+    the mixed-radix expansion of `k` (`np.unravel_index(k, shape)`): last axis fastest. -/
+theorem C04_strided_index (a : Arr) (h : a.strides.length = a.shape.length) (k : Nat)
+    (hk : k < prod a.shape) :
+    a.items[k]? = some (a.itemAt (unravel a.shape k)) ∧ a.units[k]? = some (a.valueAt (unravel a.shape k)) := by
+  rw [items_eq a h, units_eq a h, List.getElem?_map, List.getElem?_map, indices_getElem a.shape k hk]
+  exact ⟨rfl, rfl⟩
+
+/-- **C04_strided_agree**: an array-backed tensor over strided memory is a legal representation of
+    its logical elements (the values at the multi-indices, row-major, masked to the bit width):
+    `tobytes()` as the code computes it (`numpy()`, pack or itemsize assert, `astype('<')`,
+    `tobytes()` in C order) returns exactly their canonical little-endian packed bytes, whatever
+    the strides, offset and byte order of the memory; and by `C04_field_agree` / `C04_tofile_repr`
+    / `C04_serialize_roundtrip` it agrees with every other representation of those elements.
+    Hypotheses (decidable, evaluated by the driver on every generated array): the element type has
+    a bit width, the array's itemsize is the numpy itemsize of the type, every item lies inside
+    the storage, storage entries are bytes, and a big-endian dtype is not held by a real ndarray
+    (which the constructor rejects: then `tobytes` raises TypeError like the representation). -/
+theorem C04_strided_agree (d : DType) (bw : Nat) (a : Arr) (nd : Bool) (hbw : d.bitwidth = some bw)
+    (hisz : a.itemsize = npItemBytes d) (hib : a.inBounds = true)
+    (hbytes : ∀ b ∈ a.storage, b < 256) :
+    a.tobytes d nd = (a.toRep d nd).tobytes ∧
+    ((nd && a.bigEndian) = true → a.tobytes d nd = .error "TypeError") ∧
+    ((nd && a.bigEndian) = false →
+      WF d a.shape bw (obsBits bw a.units) ∧ Legal d a.shape bw (obsBits bw a.units) (a.toRep d nd) ∧
+      a.tobytes d nd = .ok (packLE bw (obsBits bw a.units))) := by
+  have E := tobytes_eq_rep d a nd hisz hib hbytes
+  refine ⟨E, ?_, ?_⟩
+  · intro h; simp [Arr.tobytes, h]
+  · intro hnb
+    obtain ⟨wf, lg⟩ := legal_strided d bw a nd hbw hisz hnb hib hbytes
+    exact ⟨wf, lg, E.trans (C04_field_agree wf lg).tobytes⟩
+
+/-- **C04_strided_torch**: the same for the torch adapter over a strided torch tensor
+    (`contiguous()` then the raw memory; the 2-bit types through the packer). -/
+theorem C04_strided_torch (d : DType) (bw : Nat) (a : Arr) (hbw : d.bitwidth = some bw)
+    (hisz : a.itemsize = npItemBytes d) (ht : d.torchMapped = true) (hle : a.bigEndian = false)
+    (hib : a.inBounds = true) (hbytes : ∀ b ∈ a.storage, b < 256) :
+    Legal d a.shape bw (obsBits bw a.units) (a.toTorchRep d) ∧
+    a.torchTobytes d = .ok (packLE bw (obsBits bw a.units)) := by
+  have lg := legal_strided_torch d bw a hisz ht hib hbytes
+  have wf : WF d a.shape bw (obsBits bw a.units) :=
+    (legal_strided d bw a false hbw hisz (by simp) hib hbytes).1
+  exact ⟨lg, (torchTobytes_eq_rep d bw a hbw hisz hle hib hbytes).trans (C04_field_agree wf lg).tobytes⟩
+
+/-! non-vacuity: a transposed view, a reversed view, a broadcast, big-endian memory, a zero-size dim -/
+
+-- a 2x3 int16 array transposed (shape [3,2], strides [2,6]) over 12 bytes
+def wT : Arr := { shape := [3, 2], strides := [2, 6], offset := 0,
+                  storage := [1, 0, 2, 0, 3, 0, 4, 0, 5, 0, 6, 0], itemsize := 2 }
+example : wT.inBounds = true := by decide
+example : wT.units = [1, 4, 2, 5, 3, 6] := by decide
+example : wT.tobytes .int16 true = .ok [1, 0, 4, 0, 2, 0, 5, 0, 3, 0, 6, 0] := rfl
+example : unravel [3, 2] 3 = [1, 1] ∧ wT.valueAt [1, 1] = 5 := by decide
+-- reversed with a negative stride, starting at the last element
+example : ({ shape := [3], strides := [-1], offset := 2, storage := [7, 8, 9], itemsize := 1 } : Arr).units = [9, 8, 7] := by
+  decide
+-- a broadcast (stride 0) and a zero-size dim
+example : ({ shape := [2, 2], strides := [0, 1], offset := 1, storage := [7, 8, 9], itemsize := 1 } : Arr).units
+    = [8, 9, 8, 9] := by decide
+example : ({ shape := [2, 0], strides := [0, 1], offset := 0, storage := [], itemsize := 4 } : Arr).inBounds = true := by
+  decide
+-- big-endian float32 memory behind an array-compatible object is serialised little-endian; a real
+-- ndarray of that dtype is rejected
+example : ({ shape := [1], strides := [4], offset := 0, storage := [0x3F, 0x80, 0, 0], itemsize := 4,
+             bigEndian := true } : Arr).tobytes .float false = .ok [0, 0, 0x80, 0x3F] := rfl
+example : ({ shape := [1], strides := [4], offset := 0, storage := [0x3F, 0x80, 0, 0], itemsize := 4,
+             bigEndian := true } : Arr).tobytes .float true = .error "TypeError" := rfl
+-- an out-of-bounds description is detected by the hypothesis
+example : ({ shape := [2], strides := [2], offset := 0, storage := [1, 2, 3], itemsize := 2 } : Arr).inBounds = false := by
+  decide
+-- sign-extended int8 storage of INT4 elements, every second one (stride 2)
+example : ({ shape := [3], strides := [2], offset := 0, storage := [0xFF, 0, 7, 0, 0xF8], itemsize := 1 } : Arr).tobytes
+    .int4 true = .ok [0x7F, 0x08] := rfl
+
+end IrVerif.Strided
+
+/-! ## Deepening round: STRING tensors (`Model/StrTensor.lean`) -/
+
+namespace IrVerif.StrTensor
+open IrVerif.TensorRepr
+
+/-- the legal representations of the string tensor with elements `vals` (C order) and shape `dims` -/
+inductive SLegal (vals : List Elem) (dims : List Nat) : SRep → Prop
+  | seq : SLegal vals dims (.seq vals dims)
+  | objArr : SLegal vals dims (.objArr vals dims)
+  | proto : SLegal vals dims (.proto vals dims false)
+  | lazy (inner : SRep) (h : SLegal vals dims inner) : SLegal vals dims (.lazy inner dims)
+
+/-- **C04_string_bytes_raise**: EVERY string tensor representation -- legal or ill-formed, at any
+    depth of lazy wrapping -- raises from `tobytes()` and from `tofile()`: a string tensor has no byte
+    form and no representation invents one. -/
+theorem C04_string_bytes_raise (r : SRep) : (∃ e, r.tobytes = .error e) ∧ (∃ e, r.tofile = .error e) := by
+  induction r with
+  | seq vals dims => exact ⟨⟨_, rfl⟩, ⟨_, rfl⟩⟩
+  | objArr vals dims => exact ⟨⟨_, rfl⟩, ⟨_, rfl⟩⟩
+  | proto vals dims raw => exact ⟨⟨_, rfl⟩, ⟨_, rfl⟩⟩
+  | lazy inner dims ih => exact ih
+
+/-- **C04_string_agree**: every legal representation of the string tensor with elements `vals` and
+    shape `dims` -- `StringTensor` over a sequence or over an object array, `TensorProtoTensor` over
+    `string_data`, what `deserialize_tensor` builds, and a lazy wrapper around any of these -- reports
+    `STRING` and `dims`, returns exactly `vals` from `numpy()` (whole byte strings: trailing NUL bytes
+    included), serializes to `string_data = vals` with `dims`, which deserializes to a legal
+    representation again; `string_data()` and `nbytes`, where the class has them, are `vals` and the
+    sum of the element lengths. -/
+theorem C04_string_agree (vals : List Elem) (dims : List Nat) (hlen : vals.length = prod dims) {r : SRep}
+    (h : SLegal vals dims r) :
+    r.dtype = .string ∧ r.shape = dims ∧ r.numpy = .ok vals ∧
+    serialize r = .ok { dims := dims, stringData := vals } ∧
+    SLegal vals dims (deserialize { dims := dims, stringData := vals }) ∧
+    (∀ sd, r.stringData = .ok sd → sd = vals) ∧
+    (∀ n, r.nbytes = .ok n → n = (vals.map List.length).sum) := by
+  induction h with
+  | seq => simp [SRep.dtype, SRep.shape, SRep.numpy, SRep.reshapeObj, hlen, serialize, deserialize, SLegal.seq, SRep.stringData, SRep.nbytes]
+  | objArr => simp [SRep.dtype, SRep.shape, SRep.numpy, serialize, deserialize, SLegal.seq, SRep.stringData, SRep.nbytes]
+  | proto => simp [SRep.dtype, SRep.shape, SRep.numpy, SRep.reshapeObj, hlen, serialize, deserialize, SLegal.seq, SRep.stringData, SRep.nbytes]
+  | lazy inner _ ih =>
+    obtain ⟨_, _, hn, _, hd, _, _⟩ := ih
+    simp [SRep.dtype, SRep.shape, SRep.numpy, hn, serialize, hd, SRep.stringData, SRep.nbytes]
+
+/-- **C04_string_pytensor**: `ir.tensor` on text / bytes data (non-empty, or with
+    `dtype=STRING`) is a legal representation of the elements' byte strings -- `bytes` as they are,
+    `str` as their UTF-8 encoding -- with the shape numpy infers; so by `C04_string_agree` it agrees
+    with every other representation of those byte strings. -/
+theorem C04_string_pytensor (elems : List PyElem) (dims : List Nat) (dtypeString : Bool)
+    (h : elems ≠ [] ∨ dtypeString = true) :
+    ∃ r, pyTensor elems dims dtypeString = .str r ∧ SLegal (elems.map PyElem.encode) dims r := by
+  refine ⟨.objArr (elems.map PyElem.encode) dims, ?_, SLegal.objArr⟩
+  unfold pyTensor
+  rcases h with h | h
+  · simp [h]
+  · simp [h]
+
+example : SLegal [[97, 0], []] [2] (.lazy (.seq [[97, 0], []] [2]) [2]) := SLegal.lazy _ SLegal.seq
+example : (SRep.seq [[97, 0], []] [2]).numpy = .ok [[97, 0], []] := rfl
+example : (SRep.seq [[97, 0]] [2]).numpy = .error "ValueError" := rfl
+example : (SRep.proto [[1]] [1] true).numpy = .error "TypeError" := rfl
+example : pyTensor [] [0] false = .valueError := rfl
+example : pyTensor [] [1, 0] false = .numeric := rfl
+example : PyElem.encode (.bytes [97, 0]) = [97, 0] := rfl
+end IrVerif.StrTensor
